@@ -47,6 +47,9 @@ type childSpec struct {
 	ListedCtx  string   `json:"listed_ctx"`  // a context URL that is on the configured allow list ("" if none)
 	Outbound   []outURL `json:"outbound"`    // URL classes to try through the node's HTTP clients once it runs
 	DummyProbe bool     `json:"dummy_probe"` // try the dummy authentication means
+	// context URLs to ask the node's JSON-LD document loader for (jsonld_test.go), and what the fake servers of some listed contexts answer
+	Contexts []ctxProbe         `json:"contexts,omitempty"`
+	Carriers map[string]carrier `json:"carriers,omitempty"`
 }
 
 type outURL struct {
@@ -69,6 +72,7 @@ type ledgerLine struct {
 	Attempts         []string `json:"attempts,omitempty"` // requests that left the client: "<scheme> <host><path>"
 	ClientStrict     bool     `json:"client_strict,omitempty"`
 	ConfiguredStrict bool     `json:"configured_strict,omitempty"`
+	N                int      `json:"n,omitempty"` // index of a context probe in the battery of the parent
 }
 
 type jsonLedger struct{ l *worker.Ledger }
@@ -92,14 +96,35 @@ func (r *recorder) since(n int) []string {
 	return append([]string{}, r.seen[n:]...)
 }
 
-// defaultTransportRecorder replaces http.DefaultTransport (used by the JSON-LD library's default document loader): records and answers a tiny context.
-type defaultTransportRecorder struct{ rec *recorder }
+// defaultTransportRecorder replaces http.DefaultTransport (used by the JSON-LD library's default document loader): records every request
+// ("<scheme> <complete URL>") and answers a tiny context - or, for the listed contexts the parent named, a context that refers to another
+// one, a redirect or a Link: alternate header.
+type defaultTransportRecorder struct {
+	rec      *recorder
+	carriers map[string]carrier
+}
 
 func (d defaultTransportRecorder) RoundTrip(req *http.Request) (*http.Response, error) {
-	d.rec.add(req.URL.Scheme + " " + req.URL.Host + req.URL.Path)
+	d.rec.add(req.URL.Scheme + " " + req.URL.String())
 	body := `{"@context":{"verif":"https://verif.invalid/ns#"}}`
-	return &http.Response{StatusCode: 200, Status: "200 OK", Proto: "HTTP/1.1", ProtoMajor: 1, ProtoMinor: 1, Request: req,
-		Header: http.Header{"Content-Type": []string{"application/ld+json"}}, Body: io.NopCloser(strings.NewReader(body)), ContentLength: int64(len(body))}, nil
+	resp := &http.Response{StatusCode: 200, Status: "200 OK", Proto: "HTTP/1.1", ProtoMajor: 1, ProtoMinor: 1, Request: req,
+		Header: http.Header{"Content-Type": []string{"application/ld+json"}}}
+	if c, ok := d.carriers[req.URL.String()]; ok {
+		switch c.Kind {
+		case "nested":
+			body = `{"@context":["` + c.Target + `",{"verif2":"https://verif.invalid/ns2#"}]}`
+		case "import":
+			body = `{"@context":{"@version":1.1,"@import":"` + c.Target + `","verif3":"https://verif.invalid/ns3#"}}`
+		case "redirect":
+			resp.StatusCode, resp.Status, body = 302, "302 Found", ""
+			resp.Header = http.Header{"Location": []string{c.Target}}
+		case "link":
+			body = "<html></html>"
+			resp.Header = http.Header{"Content-Type": []string{"text/html"}, "Link": []string{`<` + c.Target + `>; rel="alternate"; type="application/ld+json"`}}
+		}
+	}
+	resp.Body, resp.ContentLength = io.NopCloser(strings.NewReader(body)), int64(len(body))
+	return resp, nil
 }
 
 // remoteWorld is the environment of the node's outbound clients: one plain-HTTP and one TLS listener in this process to which
@@ -181,7 +206,7 @@ func nodeWorker(args []string) int {
 		return 3
 	}
 	rec := &recorder{}
-	http.DefaultTransport = defaultTransportRecorder{rec}
+	http.DefaultTransport = defaultTransportRecorder{rec, sp.Carriers}
 	remoteWorld(rec)
 
 	var everReachable atomic.Bool
@@ -341,6 +366,36 @@ func runProbes(led jsonLedger, rec *recorder, sp childSpec, system *core.System)
 			load("jsonld-listed", sp.ListedCtx)
 		}
 		load("jsonld-embedded", "https://www.w3.org/2018/credentials/v1")
+		// --- look-alikes of the listed context URLs: the loader itself, the node's JSON-LD reader, the search API of the credential registry
+		for _, q := range sp.Contexts {
+			m := rec.mark()
+			ln := ledgerLine{Ev: "probe", Probe: "jsonld-ctx", N: q.N, Class: q.Kind, Via: q.Route, URL: q.URL}
+			var lerr error
+			func() {
+				defer func() {
+					if p := recover(); p != nil {
+						lerr = fmt.Errorf("panic: %v", p)
+					}
+				}()
+				switch q.Route {
+				case "loader":
+					_, lerr = j.DocumentLoader().LoadDocument(q.URL)
+				case "expand":
+					doc, _ := json.Marshal(map[string]any{"@context": []any{q.URL}, "@type": "verif:Thing"})
+					_, lerr = jsonld.Reader{DocumentLoader: j.DocumentLoader(), AllowUndefinedProperties: true}.ReadBytes(doc)
+				case "api":
+					query := map[string]any{"@context": []any{"https://www.w3.org/2018/credentials/v1", q.URL}, "type": []string{"VerifiableCredential"},
+						"credentialSubject": map[string]any{"id": "did:web:node.zorgverlener.nl"}}
+					var body string
+					ln.Status, body, lerr = post(base+"/internal/vcr/v2/search", "POST", map[string]any{"query": query})
+					if lerr == nil && ln.Status != 200 {
+						lerr = fmt.Errorf("%s", body)
+					}
+				}
+			}()
+			ln.Err, ln.OK, ln.Attempts = errStr(lerr), lerr == nil, rec.since(m)
+			led.put(ln)
+		}
 	} else {
 		led.put(ledgerLine{Ev: "probe", Probe: "jsonld-missing"})
 	}
